@@ -170,7 +170,7 @@ Explain(c) ==
 
 Init == n \in 1..Len(Cases) /\ done = FALSE
 Next == /\ ~done /\ done' = TRUE /\ UNCHANGED n
-        /\ (IF IOEnv.GROUPS_EXPLAIN = "1" THEN PrintT("EXPECT " \o ToString(Explain(Cases[n]))) ELSE TRUE)
+        /\ (IF "GROUPS_EXPLAIN" \in DOMAIN IOEnv /\ IOEnv.GROUPS_EXPLAIN = "1" THEN PrintT("EXPECT " \o ToString(Explain(Cases[n]))) ELSE TRUE)
         /\ LET f == Fails(Cases[n]) IN
            IF f = {} THEN TRUE ELSE PrintT(<<"REJECT", Cases[n].id, f>>)
 Spec == Init /\ [][Next]_vars
